@@ -327,7 +327,7 @@ def main():
         unknown.sort(key=lambda v: len(json.dumps(v.get('case'), default=str)))
         for v in unknown[:1]:
             path = write_replay({'property': prop, 'kind': 'failing-input', 'case': v.get('case'), 'impl': v.get('impl'),
-                                 'expected': v.get('expected'), 'detail': v.get('detail'), 'seed': seed, 'tier': a.tier,
+                                 'expected': v.get('expected'), 'detail': v.get('detail'), 'stream': v.get('stream'), 'seed': seed, 'tier': a.tier,
                                  'other_failing_cases': [w.get('case') for w in unknown[1:6]], 'failing_cases_total': len(unknown)})
             replay_paths.append(path)
             lines.append('VIOLATION property=%s replay=%s' % (prop, path))
